@@ -14,6 +14,29 @@ def run(ck):
     ck.oblige("lock fact: uplink queues only used under their own mutex", okl and not rel, "; ".join(d["what"] for d in rel[:3]))
     if not okl or rel:
         ck.broken.append({"kind": "lock-fact", "name": "guarded_by uplink queue mutexes", "detail": rel[:5] or logl[-800:]})
+    # readers racing the receiver on the real code, under ThreadSanitizer: application threads pop both user queues while the
+    # receiver appends a message-queue type and an error-queue type; every message is returned once and no access races
+    try:
+        import C10
+        vlib.CURRENT_EXTS = ("C10",)
+        texe = vlib.build_harness(san="tsan")
+        rounds = 40 if quick else 1000
+        fa = hexs(frame(upmsg([1], 1, 0x82, [7]))); fb = hexs(frame(upmsg([1], 2, 0x8B, [1, 2])))
+        tscript = ["start 0 - 0", "logw 0", "qstress 4 %d %s %s" % (rounds, fa, fb)]
+        trc, tout, terr = vlib.run_driver(texe, "\n".join(tscript) + "\n", timeout=300, env_extra=C10.TSAN_ENV)
+        races, other = C10.tsan_races(terr)
+        got = re.search(r'qstress readers \d+ rounds (\d+) rx-timeouts (\d+) popped\+left (\d+)', tout)
+        lost = got is None or int(got.group(3)) != 2 * rounds
+        for rr_ in races[:2]:
+            ck.violation("race.tsan.%s" % rr_["function"], {"property": "C06", "tsan": True, "script": tscript, "tsan_report": rr_["report"], "function": rr_["function"], "file": rr_["file"], "line": rr_["line"],
+                         "reason": "ThreadSanitizer reports a data race in library code while readers pop the user queues and the receiver appends"})
+        if lost and not races:
+            ck.violation("race.queue-stress-count", {"property": "C06", "script": tscript, "observed": tout[-400:], "driver_rc": trc, "stderr": terr[-600:], "reason": "messages were lost or returned twice (or the driver died) while readers raced the receiver"})
+        ck.oblige("readers racing the receiver under ThreadSanitizer: %d messages, each returned once, no race in library frames" % (2 * rounds), not races and not lost, "%d race report(s), count ok: %s" % (len(races), not lost))
+    except vlib.BuildBroken as e:
+        ck.oblige("readers racing the receiver under ThreadSanitizer (harness build)", False, str(e)[:300])
+    finally:
+        vlib.CURRENT_EXTS = ()
     exe = vlib.build_harness(); md = vlib.build_model_driver(cdir, "_C06")
     txt = open(os.path.join(cdir, "DispatchTab.v")).read()
     def lst(name): return [int(x) for x in re.search(r'Definition %s : list N := \[(.*?)\]\.' % name, txt).group(1).split(";") if x.strip()]
@@ -132,4 +155,8 @@ def run(ck):
     return vlib.finish_with_broken(ck, trusted=vlib.TRUSTED_COMMON + ["translator/gen_dispatch.py (switch cases and README lists)"])
 
 def replay(ck, path):
+    import json
+    if os.path.exists(path) and json.load(open(path)).get("tsan"):
+        import C10
+        return C10.replay(ck, path)          # ThreadSanitizer build of the harness, same script
     return vlib.replay_generic(ck, path)
